@@ -19,9 +19,16 @@ If it is defined in `module` then get it even if it is private."
 pub fn with_current_module(mem: &mut Memory, args: &[GcRef], _env: GcRef, _recursion_depth: usize) -> Result<GcRef, GcRef> {
     validate_args!(mem, WITH_CURRENT_MODULE.name, args, (let name: TypeLabel::Symbol), (let module: TypeLabel::Symbol)); 
 
-    mem.get_global(&name.get_name(), &module.get_name()).map_err(|_| {
-        let details = vec![("symbol", args[0].clone())];
-        make_error(mem, "unbound-symbol", WITH_CURRENT_MODULE.name, &details)
+    mem.get_global(&name.get_name(), &module.get_name()).map_err(|err| {
+        if let ModulError::AmbiguousName(modules) = err {
+            let conflicting_modules = modules.iter().map(|m| mem.symbol_for(m)).collect::<Vec<GcRef>>();
+            let details = vec![("symbol", args[0].clone()), ("conflicting-modules", vec_to_list(mem, &conflicting_modules))];
+            make_error(mem, "ambiguous-name", WITH_CURRENT_MODULE.name, &details)
+        }
+        else {
+            let details = vec![("symbol", args[0].clone())];
+            make_error(mem, "unbound-symbol", WITH_CURRENT_MODULE.name, &details)
+        }
     })
 }
 
